@@ -109,6 +109,10 @@ func runCodec(in, out, tmp, summary string) {
 			e := nutsdb.VerifNewEntry(bucket, key, val, big64(ts(c.T, "ts")), big32(ts(c.T, "ttl")),
 				uint16(ti(c.T, "flag")), uint16(ti(c.T, "status")), uint16(ti(c.T, "ds")), big64(ts(c.T, "txid")))
 			enc := e.Encode()
+			at := int64(0)
+			if ts(c.T, "pos") == "end" {
+				at = capacity - int64(len(enc)) // the record ends exactly on the last byte of the file
+			}
 			want := hx.Ev{"bucket": hx.K(bucket), "key": hx.K(key), "value": hx.K(val), "ts": u64s(big64(ts(c.T, "ts"))),
 				"ttl": u64s(uint64(big32(ts(c.T, "ttl")))), "flag": ti(c.T, "flag"), "status": ti(c.T, "status"), "ds": ti(c.T, "ds"), "txid": u64s(big64(ts(c.T, "txid")))}
 			for rw := 0; rw < 2; rw++ {
@@ -127,14 +131,14 @@ func runCodec(in, out, tmp, summary string) {
 					if err != nil {
 						panic("harness: " + err.Error())
 					}
-					if _, err := df.WriteAt(enc, 0); err != nil {
+					if _, err := df.WriteAt(enc, at); err != nil {
 						panic("harness: " + err.Error())
 					}
 					nutsdb.VerifDataFileRW(df).Close()
 					// alter the stored bytes
 					if c.Mut.Type != "none" {
 						fd, _ := os.OpenFile(path, os.O_RDWR, 0644)
-						fd.WriteAt(mutate(enc, c.Mut.Type, c.Mut.I), 0)
+						fd.WriteAt(mutate(enc, c.Mut.Type, c.Mut.I), at)
 						fd.Close()
 					}
 					df, err = nutsdb.NewDataFile(path, capacity, nutsdb.RWMode(rw))
@@ -142,7 +146,7 @@ func runCodec(in, out, tmp, summary string) {
 						panic("harness: " + err.Error())
 					}
 					defer nutsdb.VerifDataFileRW(df).Close()
-					g, err := df.ReadAt(0)
+					g, err := df.ReadAt(int(at))
 					switch {
 					case err != nil:
 						ev["outcome"], ev["msg"] = "error", err.Error()
